@@ -21,6 +21,9 @@ sidx = {}
 import glob
 for d in glob.glob("/verif/seeded/*/meta.json"):
     m = json.load(open(d))
-    sidx[m["name"]] = "— " + m.get("needs", m.get("what", ""))
+    t = (m.get("needs") or m.get("what") or "").replace("|", "/").replace("Trigger: ", "")
+    if len(t) > 230:
+        t = t[:230].rsplit(" ", 1)[0] + " …"
+    sidx[m["name"]] = "— " + t
 print("### Seeded changes from independent sub-agents (/verif/seeded)\n")
 print(table("/verif/seeded/results.json", sidx))
